@@ -105,3 +105,25 @@ Theorem C06_channel_never_hangs :
   forall ls, nt_reader_cur allow ls <> inr (nt_abort None).
 Proof. exact nt_reader_cur_never_hangs. Qed.
 Print Assumptions C06_channel_never_hangs.
+
+(** ** documents with comment lines and blank lines ([NtSyntax.dline], [NtSyntax.nt_document]):
+    the pipeline sees the statements' graph ([nt_graph_of_doc]); partial on [dline_dom_cur]
+    (comment lines only once the reader skips them, finding C06-F9), full with every repair *)
+Theorem C06_channel_document_to_graph :
+  forall pyfloat allow read_ttl gunzip unxz unzip rdf_parse fa c thr (o1 o2 : porc) (ds : list NtSyntax.dline),
+    Forall (fun d => NtSyntax.valid_dline d = true /\ NtDomCur.dline_dom_cur d = true) ds ->
+    run_over_passes fa c thr (passes pyfloat (nt_reader_cur allow) read_ttl gunzip unxz unzip rdf_parse o1 o2
+                                     (Str "nt") None (SRaw (NtSyntax.nt_document ds)))
+    = Some (run_shapes_cur fa c thr (nt_graph_of_doc ds)).
+Proof. exact nt_doc_to_graph_cur. Qed.
+Print Assumptions C06_channel_document_to_graph.
+
+Theorem C06_channel_document_to_graph_full :
+  forall pyfloat allow read_ttl gunzip unxz unzip rdf_parse fa c thr (o1 o2 : porc) (ds : list NtSyntax.dline),
+    nt_fixed_tok = true -> nt_fixed_dlt = true -> nt_tok_end_at_hash = true -> nt_skips_comment_lines = true ->
+    Forall (fun d => NtSyntax.valid_dline d = true) ds ->
+    run_over_passes fa c thr (passes pyfloat (nt_reader_cur allow) read_ttl gunzip unxz unzip rdf_parse o1 o2
+                                     (Str "nt") None (SRaw (NtSyntax.nt_document ds)))
+    = Some (run_shapes_cur fa c thr (nt_graph_of_doc ds)).
+Proof. exact nt_doc_to_graph_full. Qed.
+Print Assumptions C06_channel_document_to_graph_full.
